@@ -40,7 +40,7 @@ for d in sorted(glob.glob(os.path.join(VERIF, "seeded", "*"))):
     rows.append("| %s | %s | %s | %s | %s | %s |" % (name, m["property"], summ[:170], needs[:150],
                 ", ".join(caught) + ((" (first conjunct: `%s`)" % first) if first else ""), ", ".join(missed) or "-"))
 i0 = s.index("| seeded | written for | change | needs | caught by | run but not caught by |")
-i1 = s.index("\nStrengthenings that came out of this exercise")
+i1 = s.index("\n(end of the seeded table)")
 head = "| seeded | written for | change | needs | caught by | run but not caught by |\n|---|---|---|---|---|---|\n"
 s = s[:i0] + head + "\n".join(rows) + "\n" + s[i1:]
 s = re.sub(r"^\d+ changes written by independent sub-agents", "%d changes written by independent sub-agents" % total, s, flags=re.M)
